@@ -126,6 +126,7 @@ def install():
     # The T1 cache key is built with json.dumps even when the cache is off; json.dumps realises symbolic values
     # (enumerating concrete caps/budgets for ever).  The cache is disabled in every C12 obligation, so the key is unused.
     T1.stable_key = lambda obj: "KEY-UNUSED"
+    W.stub_store_etag()
 
 
 def _run(nodes, edges, text, cfg, slice_budgets=None):
@@ -140,7 +141,7 @@ def _run(nodes, edges, text, cfg, slice_budgets=None):
     return res, unchanged
 
 
-_STUBS = ("t1.stable_key -> constant (T1 cache disabled in these obligations; the real key is exercised in C05)",)
+_STUBS = ("t1.stable_key -> constant (T1 cache disabled in these obligations; the real key is exercised in C05)", "graph store etag -> counter (the real etag hashes repr(weights); unused with the cache off)")
 _TARGETS = ("clematis/engine/stages/t1.py:t1_propagate", "clematis/engine/stages/t1.py:_t1_one_graph", "clematis/engine/stages/t1.py:_compute_decay", "clematis/engine/stages/t1.py:_match_keywords")
 
 
